@@ -87,7 +87,7 @@ impl ConcurrentNodeIds {
     }
 
 //@extract src/parallel.rs | impl ConcurrentNodeIds | new
-//@subst
+//@subst count=opt
 <<<
 used.max().map_or(0, |id| id + 1)
 ===
